@@ -82,6 +82,12 @@ def replay_index_case(case):
     if _width_conflict(frec):
         return {"n": 0, "keys": [], "fails": [], "validated": 0}
     fd, tys = build_trunc_file(frec, seed, case.get("variant", 0))
+    hp = zlib.crc32(repr(frec).encode()) + seed
+    if hp % 2 == 0:
+        # padded metadata in some segments (also in segments without raw data); the index file repeats the padding
+        for j_, sg_ in enumerate(fd["segs"]):
+            if sg_["meta"] and (j_ + hp // 2) % 2 == 0:
+                sg_["metapad"] = 1 + (hp // 4 + 3 * j_) % 9
     e = enc.encode(fd, seed)
     fails = []
     obs = {}
